@@ -482,7 +482,13 @@ class Runner:
             for pid in fails:
                 key = pid.replace(".unwind.", ".")
                 cur = us.get(key, g.unwind or 1)
-                us[key] = cur + max(1, cur // 2)
+                ladder = [b for b in (9, 18, 34, 66, 72, 130, 136, 200, 260, 520, 1040) if b > cur]
+                us[key] = ladder[0] if ladder else cur * 2
+                # dfcc renames the function under contract; goto-cc renames duplicated statics
+                f, n = key.rsplit(".", 1)
+                us["%s_wrapped_for_contract_checking.%s" % (f, n)] = us[key]
+                if rnd > 60:
+                    break
         else:
             res.state, res.reason = "undecided", "unwinding refinement did not converge"
             return False
